@@ -198,12 +198,14 @@ func runH(c HCase) (res hresult) {
 			ops = append(ops, "HWatch")
 			answers = append(answers, "ANone")
 		case "latest":
-			h, err := core.GetLatestHeight(ctx)
-			// before its first use the lazy light client has no trusted height (error): resolveHeight then asks the provider
+			// the light client's answer as the call will see it, read BEFORE the call: before its
+			// first use the lazy light client has no trusted height (error) and resolveHeight asks
+			// the provider even when watching; the call itself initialises the client
 			ltS := "None"
 			if lt, e := lc.LastTrustedHeight(); e == nil {
 				ltS = "(Some " + zs(lt) + ")"
 			}
+			h, err := core.GetLatestHeight(ctx)
 			var tbl []string
 			for _, x := range lbs {
 				tbl = append(tbl, "("+zs(x.Height)+", "+lbCoq(t, x)+")")
